@@ -121,10 +121,12 @@ impl Gen {
   /// random schedule: each entry a random unfinished-looking tid, ~3% with the `f` suffix
   fn schedule(&mut self, est: &[(usize, u64)]) -> Vec<(usize, bool)> {
     let total: u64 = est.iter().map(|e| e.1 + 1).sum();
-    let len = if self.rng.chance(50) {
+    // mostly proportional to the estimated number of steps (so that `skip` lines stay rare: what the
+    // schedule does not cover is finished by the fair round-robin), sometimes any length
+    let len = if self.rng.chance(12) {
       self.rng.range(20, 300)
     } else {
-      (total * self.rng.range(50, 160) / 100).clamp(20, 300)
+      (total * self.rng.range(40, 140) / 100).clamp(20, 300)
     };
     let mut granted = vec![0u64; est.len()];
     let mut sched = Vec::new();
